@@ -7,12 +7,12 @@ for m in "$SRC"/mutant_*; do
   S=/tmp/evalrepo_${PID}_$k
   rm -rf $S && cp -r /repo $S && rm -rf $S/.git && (cd $S && git init -q && git add -A >/dev/null 2>&1 && git -c user.email=a@b -c user.name=x commit -qm base >/dev/null)
   echo "=== $PID $k: $(python3 -c "import json;print(json.load(open('$m/meta.json'))['summary'][:160])")"
-  base=$(cd $S && PYTHONPATH=$S /venv/bin/python $m/demo.py >/dev/null 2>&1; echo $?)
+  base=$(cd $S && PYTHONPATH=$S timeout 600 /venv/bin/python $m/demo.py >/dev/null 2>&1; echo $?)
   (cd $S && git apply $m/patch.diff) || { echo "  patch does not apply"; continue; }
-  mut=$(cd $S && PYTHONPATH=$S /venv/bin/python $m/demo.py >/dev/null 2>&1; echo $?)
-  suite=$(cd $S && /venv/bin/python -m pytest -q -p no:cacheprovider --continue-on-collection-errors 2>&1 | tail -1)
+  mut=$(cd $S && PYTHONPATH=$S timeout 600 /venv/bin/python $m/demo.py >/dev/null 2>&1; echo $?)
+  suite=$(cd $S && timeout 900 /venv/bin/python -m pytest -q -p no:cacheprovider --continue-on-collection-errors 2>&1 | tail -1)
   echo "  demo pristine exit=$base mutated exit=$mut ; suite: $suite"
-  out=$(cd /verif && SCALES_REPO=$S ./check $PID --no-proof 2>&1 | grep "VIOLATION\|tier=")
+  out=$(cd /verif && SCALES_REPO=$S timeout 2400 ./check $PID --no-proof 2>&1 | grep "VIOLATION\|tier=")
   echo "$out" | sed 's/^/  /'
   rm -rf $S
 done
